@@ -377,7 +377,9 @@ func explore(r *ev.Run, G *gprops, gs *gstats, cfg graphCfg) gresult {
 		})
 		res.live += int64(len(frontier))
 		if res.depth == 3 && len(frontier) > 5 {
-			gs.sample.Do(func() { r.Sample(map[string]any{"graph": cfg.name, "state_reached_by": frontier[len(frontier)/2].path, "then_every_token_of_alphabet": len(cfg.alphabet)}) })
+			gs.sample.Do(func() {
+				r.Sample(map[string]any{"graph": cfg.name, "state_reached_by": frontier[len(frontier)/2].path, "then_every_token_of_alphabet": len(cfg.alphabet)})
+			})
 		}
 		// deterministic order for reproducible shortest counterexamples
 		sort.Slice(next, func(i, j int) bool { return next[i].path < next[j].path })
